@@ -33,6 +33,115 @@ def use_generator_call(fsel: int, extra: int, trailing_comma: bool, multiline: b
     return fin(before == after)
 
 
+FCH = ["a", "{", "}", "\\", "'", '"', " "]
+FPREFIX = ["f", "F", "rf", "fr"]
+NF = __import__("vlib.core", fromlist=["tier"]).tier(2, 3)
+FQUOTE = ['"', "'", '"""']
+
+
+def _sel(pool, i):
+    k = 0
+    while k < len(pool) - 1:
+        if i % len(pool) == k:
+            return pool[k]
+        k += 1
+    return pool[len(pool) - 1]
+
+
+def _pipeline_value(codemod_name: str, expr: str, env: dict):
+    """Run the complete real pipeline of a detector-less codemod on `r = <expr>` and evaluate both versions."""
+    from crosshair.tracers import NoTracing
+
+    with NoTracing():  # the program is concrete on this path: native-speed pipeline + exec
+        from tv import driver
+
+        cm = _REG["pixee:python/" + codemod_name]
+        src = "r = %s\n" % expr
+        try:
+            compile(src, "<before>", "exec")
+        except SyntaxError:
+            return None
+        out, _ = driver.run_pipeline(cm, src)
+
+        def val(code):
+            ns = dict(env)
+            try:
+                exec(compile(code, "<p>", "exec"), ns)
+                return ("val", type(ns["r"]).__name__, repr(sorted(ns["r"], key=repr)) if isinstance(ns["r"], (set, frozenset)) else repr(ns["r"]))
+            except SyntaxError:
+                return ("syntax-error",)
+            except Exception as e:  # noqa
+                return ("exc", type(e).__name__)
+
+        return val(src), val(out), out != src
+
+
+def unnecessary_fstring(n: int, c0: int, c1: int, c2: int, p: int, q: int) -> bool:
+    """remove-unnecessary-f-str (complete real pipeline) on an f-string literal whose prefix, quote style and
+    content (<= 2, thorough 3, characters over ordinary, both braces, backslash, both quotes, space) are symbolic selectors:
+    the rewritten module binds the same string.
+    pre: 0 <= n <= NF
+    post: _
+    """
+    from vlib.core import fin
+
+    content = ""
+    if n >= 1:
+        content += _sel(FCH, c0)
+    if n >= 2:
+        content += _sel(FCH, c1)
+    if n >= 3:
+        content += _sel(FCH, c2)
+    quote = _sel(FQUOTE, q)
+    res = _pipeline_value("remove-unnecessary-f-str", _sel(FPREFIX, p) + quote + content + quote, {})
+    if res is None:
+        return fin(True)
+    before, after, _changed = res
+    return fin(before == after)
+
+
+SET_ELTS = ["1", "x", "*xs", "(1, 2)", "x + 1"]
+
+
+def set_literal(n: int, e0: int, e1: int, e2: int, trailing_comma: bool, spaced: bool) -> bool:
+    """use-set-literal (complete real pipeline) on `set([...])` with 0-3 elements of symbolic kinds (constant, name,
+    starred, tuple, expression), optional trailing comma and inner spacing: the rewritten module binds an equal set.
+    pre: 0 <= n <= 3
+    post: _
+    """
+    from vlib.core import fin
+
+    elts = []
+    if n >= 1:
+        elts.append(_sel(SET_ELTS, e0))
+    if n >= 2:
+        elts.append(_sel(SET_ELTS, e1))
+    if n >= 3:
+        elts.append(_sel(SET_ELTS, e2))
+    inner = ", ".join(elts) + ("," if trailing_comma and elts else "")
+    expr = "set( [ %s ] )" % inner if spaced else "set([%s])" % inner
+    res = _pipeline_value("use-set-literal", expr, {"x": 3, "xs": [4, 5]})
+    if res is None:
+        return fin(True)
+    before, after, _changed = res
+    return fin(before == after)
+
+
+def _load_registry():
+    from codemodder.registry import load_registered_codemods
+
+    return {c.id: c for c in load_registered_codemods().codemods}
+
+
+_REG = _load_registry()
+
+
+def warmup():
+    unnecessary_fstring(2, 0, 1, 0, 0, 0)
+    set_literal(2, 0, 2, 0, True, False)
+    use_generator_call(2, 1, False, False, False)
+
+
 SPEC = {
     "property": "C08",
     "level": "translation_validation",
@@ -42,6 +151,7 @@ SPEC = {
         "InvertedBooleanCheckTransformer.leave_UnaryOperation / report_new_comparison / _invert_comparisons",
         "CombineCallsBaseCodemod.leave_BooleanOperation / matches_* / combine_*",
         "UseGenerator.leave_Call (E1 kernel over a symbolic call shape)",
+        "the complete real pipelines of remove-unnecessary-f-str and use-set-literal on selector-built expressions (value comparison by exec)",
     ],
     "bounds": {
         "quick": "grammar `r = <expr>`: not-prefixed comparison chains of 1-2 operators out of == != < > <= >= is 'is not' in 'not in' over int names, a bool name, True, None, 0 and a container, bare / parenthesised / inside and-or contexts; and/or trees of depth <= 1 and all 3-atom shapes (with and without parentheses) over 5 of 8 startswith/endswith atoms and 5 of 7 isinstance/issubclass atoms.  Value sorts: unbounded ints, bools, None; predicates uninterpreted; per element name a 'denotes a 2-tuple' flag",
@@ -54,8 +164,12 @@ SPEC = {
         "the evaluator is validated against exec() on sampled programs and every sat model is replayed by exec",
     ],
     "stubs": ["FileContext with a non-existent path (nothing is written)"],
-    "outside": ["walrus-if, with-wrapping (fix-file-resource-leak), import codemods (order-imports, unused-imports), lazy logging, f-strings, sql parameterization, use-set-literal: statement-level, scope or call-effect semantics beyond the evaluator (the seeded changes C08_a and C02_a live there and are NOT caught)"],
+    "outside": ["walrus-if, with-wrapping (fix-file-resource-leak), import codemods (order-imports, unused-imports), lazy logging, sql parameterization: statement-level, scope or call-effect semantics beyond the evaluator (the seeded changes C08_a and C02_a live there and are NOT caught)"],
     "rule": "programs = grammar programs pushed through the real pipeline; distinct_nontrivial = programs the codemod changed; disagreements_checked = z3 equivalence queries on changed programs",
     "drivers": [translation_validation, planted],
-    "xh": [__import__("vlib.main", fromlist=["Xh"]).Xh("use_generator_call", 200, 400)],
+    "xh": [
+        __import__("vlib.main", fromlist=["Xh"]).Xh("use_generator_call", 200, 400),
+        __import__("vlib.main", fromlist=["Xh"]).Xh("unnecessary_fstring", 300, 600),
+        __import__("vlib.main", fromlist=["Xh"]).Xh("set_literal", 300, 600),
+    ],
 }
